@@ -111,8 +111,17 @@ func oracleC07(x *Exec, so *StepObs) {
 	x.Res.Checks += 2
 	if len(foreign) > 0 && !op.TakeOwnership {
 		x.Sim.Probe("foreign-object-present")
+		plantedCause := "planted"
+		for _, q := range r.Reqs {
+			if q.Verb == "GET" && q.Status == 403 {
+				// the ownership lookup itself was refused by the cluster: not knowing is no licence to go ahead
+				plantedCause = "planted:lookup-forbidden"
+				x.Sim.Probe("c07-ownership-lookup-forbidden")
+				break
+			}
+		}
 		if r.OK || !strings.Contains(r.Err, "exists and cannot be imported") {
-			fail("refuse-foreign", "planted", fmt.Sprintf("%v exist and are not owned by release %s/%s, yet the operation did not refuse (ok=%v err=%q)", foreign, ns, rel, r.OK, trunc(r.Err, 200)))
+			fail("refuse-foreign", plantedCause, fmt.Sprintf("%v exist and are not owned by release %s/%s, yet the operation did not refuse (ok=%v err=%q)", foreign, ns, rel, r.OK, trunc(r.Err, 200)))
 			return
 		}
 		if m := r.Mutations(); len(m) > 0 {
@@ -269,6 +278,12 @@ func genC07(seed, index uint64, tier string) *Plan {
 			}
 		}
 		st := Step{Op: &op}
+		if (op.Op == "install" || op.Op == "upgrade") && len(cand) > 0 && g.Chance(0.15) {
+			// the cluster refuses a read (an RBAC role without get on one kind): an operation that cannot tell whether
+			// an object is foreign stops before touching anything, like one that can
+			st.Faults = append(st.Faults, FaultSpec{Kind: FReject, Code: 403, Pred: &Pred{Storage: boolp(false), Verb: "GET", PathHas: "/" + cand[g.N(len(cand))].Name, Nth: 1}})
+			op.Atomic = op.Atomic || g.Chance(0.4)
+		}
 		if (op.Op == "install" || op.Op == "upgrade") && len(cand) > 0 && g.Chance(0.25) {
 			// the foreign object appears after the pre-flight ownership check: when the release record is created,
 			// or when the first hook is being waited for
